@@ -20,7 +20,7 @@ inductive CNode where
   | func (label : Nat)
   | label (id : Nat)
   | sentinel
-  | inst (k : Nat)
+  | inst (k : Nat) (extra opts : Nat)
   | invoke (nargs : Nat)
   deriving DecidableEq, Repr, Inhabited
 
@@ -33,7 +33,13 @@ structure CView where
   regs : List Bool := []
   /-- `_func != nullptr`: a function is open (tied for histories that do not call `add_func` while a function is open) -/
   isOpen : Bool := false
+  /-- the emitter's one-shot state (extra register, instruction options), consumed by `_emit` and by `_grab_state()` -/
+  pendExtra : Nat := 0
+  pendOpts : Nat := 0
   deriving DecidableEq, Repr, Inhabited
+
+/-- `reset_state()` / what `_emit` leaves of the one-shot state on both paths -/
+def clearPending (v : CView) : CView := { v with pendExtra := 0, pendOpts := 0 }
 
 structure CCaps where
   labCap : Nat := 0
@@ -54,6 +60,8 @@ inductive COp where
   | invoke (nargs : Nat)
   | emit (k : Nat)
   | endFunc
+  | setExtra (r : Nat)
+  | setOpts (bits : Nat)
   deriving DecidableEq, Repr, Inhabited
 
 /-- `add_node`: link behind the cursor, the cursor moves to the new node -/
@@ -109,7 +117,7 @@ def funcTail (v0 : CView) (nargs : Nat) (r : Oracle × CSt × Bool) : Oracle × 
                                       cursor := at_, isOpen := true } }, .ok)
 
 /-- `add_func(signature)` -/
-def addFunc (o : Oracle) (s : CSt) (nargs : Nat) : Oracle × CSt × Err :=
+def addFuncCore (o : Oracle) (s : CSt) (nargs : Nat) : Oracle × CSt × Err :=
   match req o with                            -- `new_node_t<FuncNode>`
   | (true, o1) => (o1, s, .oom)
   | (false, o1) =>
@@ -117,8 +125,12 @@ def addFunc (o : Oracle) (s : CSt) (nargs : Nat) : Oracle × CSt × Err :=
     | (true, o2) => (o2, s, .oom)
     | (false, o2) => funcTail s.v nargs (registerLabel o2 s)
 
+/-- `add_func(signature)`: `_grab_state()` takes (and resets) the one-shot state before anything can fail -/
+def addFunc (o : Oracle) (s : CSt) (nargs : Nat) : Oracle × CSt × Err :=
+  addFuncCore o { s with v := clearPending s.v } nargs
+
 /-- `invoke(target, signature)` -/
-def invoke (o : Oracle) (s : CSt) (nargs : Nat) : Oracle × CSt × Err :=
+def invokeCore (o : Oracle) (s : CSt) (nargs : Nat) : Oracle × CSt × Err :=
   match req o with                            -- `new_node_t<InvokeNode>`
   | (true, o1) => (o1, s, .oom)
   | (false, o1) =>
@@ -128,10 +140,13 @@ def invoke (o : Oracle) (s : CSt) (nargs : Nat) : Oracle × CSt × Err :=
       | (false, o2) => (o2, { s with v := link s.v (.invoke nargs) }, .ok)
     else (o1, { s with v := link s.v (.invoke nargs) }, .ok)
 
+def invoke (o : Oracle) (s : CSt) (nargs : Nat) : Oracle × CSt × Err :=
+  invokeCore o { s with v := clearPending s.v } nargs      -- `_grab_state()` first
+
 def emit (o : Oracle) (s : CSt) (k : Nat) : Oracle × CSt × Err :=
-  match req o with
-  | (true, o1) => (o1, s, .oom)
-  | (false, o1) => (o1, { s with v := link s.v (.inst k) }, .ok)
+  match req o with                            -- `BaseBuilder::_emit`: a failed call clears the one-shot state too
+  | (true, o1) => (o1, { s with v := clearPending s.v }, .oom)
+  | (false, o1) => (o1, { s with v := link (clearPending s.v) (.inst k s.v.pendExtra s.v.pendOpts) }, .ok)
 
 /-- `end_func()`: the cursor goes to the end sentinel of the open function (the first sentinel behind the cursor) -/
 def endFuncView (v : CView) : CView × Err :=
@@ -147,6 +162,8 @@ def cstep (op : COp) (o : Oracle) (s : CSt) : Oracle × CSt × Err :=
   | .invoke n => invoke o s n
   | .emit k => emit o s k
   | .endFunc => let r := endFuncView s.v; (o, { s with v := r.1 }, r.2)
+  | .setExtra r => (o, { s with v := { s.v with pendExtra := r } }, .ok)
+  | .setOpts b => (o, { s with v := { s.v with pendOpts := s.v.pendOpts ||| b } }, .ok)
 
 /-- failure-free meaning -/
 def cspec (op : COp) (v : CView) : CView × Err :=
@@ -154,10 +171,12 @@ def cspec (op : COp) (v : CView) : CView × Err :=
   | .newReg _ => ({ v with regs := v.regs ++ [true] }, .ok)
   | .addFunc _ =>
     let at_ := v.cursor + 1
-    ({ v with nodes := ((v.nodes.insertIdx at_ (.func (v.labelCount + 1))).insertIdx (at_ + 1) (.label v.labelCount)).insertIdx (at_ + 2) .sentinel,
+    ({ v with pendExtra := 0, pendOpts := 0, nodes := ((v.nodes.insertIdx at_ (.func (v.labelCount + 1))).insertIdx (at_ + 1) (.label v.labelCount)).insertIdx (at_ + 2) .sentinel,
               cursor := at_, labelCount := v.labelCount + 2, isOpen := true }, .ok)
-  | .invoke n => (link v (.invoke n), .ok)
-  | .emit k => (link v (.inst k), .ok)
+  | .invoke n => (link (clearPending v) (.invoke n), .ok)
+  | .emit k => (link (clearPending v) (.inst k v.pendExtra v.pendOpts), .ok)
   | .endFunc => endFuncView v
+  | .setExtra r => ({ v with pendExtra := r }, .ok)
+  | .setOpts b => ({ v with pendOpts := v.pendOpts ||| b }, .ok)
 
 end AsmjitVerif.FaultCompiler
